@@ -346,20 +346,23 @@ func checkStopOrder(w *World, r *Report) {
 			})
 			r.Check(bad == "", "stop.run-tests-context", FuncName(run)+": ctx.Err() before any work", w.InstrPos(ctxIf.If), "every compile/execute/log-open step is reachable only over the ctx.Err() == nil edge", "work is reachable without the context test: "+bad)
 		}
-		// Run is counted in the runner's WaitGroup
-		pr := w.EnumPaths(run, EnumOpts{MaxPaths: 8})
-		okWG := len(pr.Paths) > 0
-		for _, p := range pr.Paths {
-			if len(p.Effects) < 3 || !(strings.HasSuffix(p.Effects[1].Target, "WaitGroup).Add") || strings.HasSuffix(p.Effects[0].Target, "WaitGroup).Add")) {
-				okWG = false
-			}
-			hasDone := false
-			for _, e := range p.Effects[:4] {
-				if e.Kind == "defer" && strings.HasSuffix(e.Target, "WaitGroup).Done") {
-					hasDone = true
+		// Run is counted in the runner's WaitGroup: the first two calls of its entry block are
+		// wg.Add(1) and the deferred wg.Done() (allocations and stores of locals may precede them)
+		okWG := false
+		if len(run.Blocks) > 0 {
+			var calls []ssa.Instruction
+			for _, in := range run.Blocks[0].Instrs {
+				switch in.(type) {
+				case *ssa.Call, *ssa.Defer, *ssa.Go:
+					calls = append(calls, in)
 				}
 			}
-			okWG = okWG && hasDone
+			if len(calls) >= 2 {
+				c0, c1 := callCommonOf(calls[0]), callCommonOf(calls[1])
+				_, isDefer := calls[1].(*ssa.Defer)
+				okWG = strings.HasSuffix(calleeName(c0), "WaitGroup).Add") && isDefer && strings.HasSuffix(calleeName(c1), "WaitGroup).Done") &&
+					w.AP(c0.Args[0]) == w.AP(c1.Args[0])
+			}
 		}
 		r.Check(okWG, "stop.run-counted", FuncName(run)+": every run is counted", w.Pos(run.Pos()), "Run starts with wg.Add(1); defer wg.Done()", "a task run is not counted in the runner's WaitGroup from its first statement: Cancel returns while the run is still going")
 	}
